@@ -2,7 +2,7 @@
 Round trip: the mutual induction.  `deserGraph` run on the proto that `serGraph` writes for a
 serializable graph succeeds and returns the same tree up to a renaming of the values.
 -/
-import IrVerif.Lemmas.ScopeRTPhases
+import IrVerif.Lemmas.ScopeVI
 namespace IrVerif.Scope
 
 /-! ### inversion of the serializer -/
@@ -69,7 +69,7 @@ theorem serNode_inv {V : Nat → ValueS} {td : TData} {go : List Nat} {i : Nat} 
     {ins : List (Option Nat)} {outs : List Nat} {subs : List GraphT} {np : NodeP} {vi : List VInfoP} {ws : Writes}
     (h : serNode V td go (.mk i g ins outs subs) = .ok (np, vi, ws)) :
     ∃ gps ws', serSubs V td subs = .ok (gps, ws') ∧
-      np = .mk (ins.map (inName V)) ((stripTrailing V outs).map (nm V)) gps := by
+      np = .mk (ins.map (inName V)) ((stripTrailing V outs).map (nm V)) gps ∧ vi = outVInfo V go outs := by
   simp only [serNode] at h
   split at h
   · simp at h
@@ -81,9 +81,9 @@ theorem serNode_inv {V : Nat → ValueS} {td : TData} {go : List Nat} {i : Nat} 
       · simp at h
       · rename_i gps ws' hs
         simp only [Except.ok.injEq, Prod.mk.injEq] at h
-        obtain ⟨rfl, _, _⟩ := h
+        obtain ⟨rfl, rfl, _⟩ := h
         rw [(serInputs_ok hi).1, (serOutNames_ok ho).1]
-        exact ⟨gps, ws', hs, rfl⟩
+        exact ⟨gps, ws', hs, rfl, rfl⟩
 
 theorem serSubs_inv {V : Nat → ValueS} {td : TData} {g : GraphT} {gs : List GraphT} {gps : List GraphP}
     {ws : Writes} (h : serSubs V td (g :: gs) = .ok (gps, ws)) :
@@ -247,23 +247,132 @@ theorem serNodes_outputs (V : Nat → ValueS) (td : TData) (go : List Nat) :
   | n :: ns, nps, vis, ws, h => by
     obtain ⟨np, vi1, ws1, nps', vis', ws2, h1, h2, rfl⟩ := serNodes_inv h
     obtain ⟨i, g, a, b, c⟩ := n
-    obtain ⟨gps, ws', _, rfl⟩ := serNode_inv h1
+    obtain ⟨gps, ws', _, rfl, _⟩ := serNode_inv h1
     simp only [List.map_cons, NodeP.outputs, liveOuts, serNodes_outputs V td go ns nps' vis' ws2 h2]
+
+theorem ne_none_of_truthy {V : Nat → ValueS} {v : Nat} (h : nameTruthy (V v).name = true) : (V v).name ≠ none := by
+  rw [(name_some_of_truthy h).1]; simp
+
+theorem inits_key_inj {inits : List (Name × Nat)} (hk : (inits.map (·.1)).Nodup) {a b : Name × Nat}
+    (ha : a ∈ inits) (hb : b ∈ inits) (h : a.1 = b.1) : a = b := by
+  induction inits with
+  | nil => simp at ha
+  | cons e r ih =>
+    simp only [List.map_cons, List.nodup_cons, List.mem_map, not_exists, not_and] at hk
+    simp only [List.mem_cons] at ha hb
+    rcases ha with rfl | ha <;> rcases hb with rfl | hb
+    · rfl
+    · exact absurd h.symm (hk.1 b hb)
+    · exact absurd h (hk.1 a ha)
+    · exact ih hk.2 ha hb
+
+/-- the round-tripped cells of the values `L` carry the serializable information of the source -/
+def InfoOK (V : Nat → ValueS) (s : Store) (A : Assoc) (L : List Nat) : Prop :=
+  ∀ v ∈ L, (s.vals (sig A v)).info = (V v).info.emit
+
+/-- the round-tripped initializers `I` carry a tensor named after them with the source payload -/
+def ConstOK (V : Nat → ValueS) (td : TData) (s : Store) (A : Assoc) (I : List (Name × Nat)) : Prop :=
+  ∀ kv ∈ I, ∀ t, (V kv.2).const = some t →
+    ∃ t', (s.vals (sig A kv.2)).const = some t' ∧ t' < s.nt ∧ (s.tens t').name = some kv.1 ∧ s.tdata t' = td t
+
+theorem InfoOK.step {V : Nat → ValueS} {s s' : Store} {A B : Assoc} {L : List Nat} (h : InfoOK V s A L)
+    (hk : ∀ v ∈ L, v ∈ A.map (·.1)) (hrs : RS V s A) (hp : Prim s.nv s s') : InfoOK V s' (A ++ B) L := by
+  intro v hv
+  rw [sig_append_of_mem (hk v hv), (hp.cell _ (hrs.sig_lt (hk v hv))).1]
+  exact h v hv
+
+theorem ConstOK.step {V : Nat → ValueS} {td : TData} {s s' : Store} {A B : Assoc} {I : List (Name × Nat)}
+    (h : ConstOK V td s A I) (hk : ∀ kv ∈ I, kv.2 ∈ A.map (·.1)) (hrs : RS V s A) (hp : Prim s.nv s s') :
+    ConstOK V td s' (A ++ B) I := by
+  intro kv hkv t ht
+  obtain ⟨t', h1, h2, h3, h4⟩ := h kv hkv t ht
+  refine ⟨t', ?_, Nat.lt_of_lt_of_le h2 hp.nt_le, ?_, ?_⟩
+  · rw [sig_append_of_mem (hk kv hkv), (hp.cell _ (hrs.sig_lt (hk kv hkv))).2]; exact h1
+  · rw [hp.tens t' h2]; exact h3
+  · simp only [Store.tdata] at h4 ⊢
+    rw [hp.tens t' h2]; exact h4
+
+theorem InfoOK.prim {V : Nat → ValueS} {s s' : Store} {A : Assoc} {L : List Nat} (h : InfoOK V s A L)
+    (hk : ∀ v ∈ L, v ∈ A.map (·.1)) (hrs : RS V s A) (hp : Prim s.nv s s') : InfoOK V s' A L := by
+  have := h.step (B := []) hk hrs hp
+  simpa using this
+
+theorem ConstOK.prim {V : Nat → ValueS} {td : TData} {s s' : Store} {A : Assoc} {I : List (Name × Nat)}
+    (h : ConstOK V td s A I) (hk : ∀ kv ∈ I, kv.2 ∈ A.map (·.1)) (hrs : RS V s A) (hp : Prim s.nv s s') :
+    ConstOK V td s' A I := by
+  have := h.step (B := []) hk hrs hp
+  simpa using this
+
+mutual
+theorem allInits_sub_allDefsG (V : Nat → ValueS) :
+    ∀ (g : GraphT), ∀ kv ∈ allInitsG g, kv.2 ∈ allDefsG V g
+  | .mk i ins inits nodes outs, kv, h => by
+    simp only [allInitsG, List.mem_append] at h
+    simp only [allDefsG, defsOf, List.mem_append]
+    rcases h with h | h
+    · by_cases hi : kv.2 ∈ ins
+      · exact .inl (.inl (.inl hi))
+      · refine .inl (.inl (.inr ?_))
+        simp only [List.mem_filter, List.mem_map]
+        exact ⟨⟨kv, h, rfl⟩, by simpa using hi⟩
+    · exact .inr (allInits_sub_allDefsNs V nodes kv h)
+theorem allInits_sub_allDefsNs (V : Nat → ValueS) :
+    ∀ (ns : List NodeT), ∀ kv ∈ allInitsNs ns, kv.2 ∈ allDefsNs V ns
+  | [], kv, h => by simp [allInitsNs] at h
+  | n :: ns, kv, h => by
+    simp only [allInitsNs, List.mem_append] at h
+    simp only [allDefsNs, List.mem_append]
+    rcases h with h | h
+    · exact .inl (allInits_sub_allDefsN V n kv h)
+    · exact .inr (allInits_sub_allDefsNs V ns kv h)
+theorem allInits_sub_allDefsN (V : Nat → ValueS) :
+    ∀ (n : NodeT), ∀ kv ∈ allInitsN n, kv.2 ∈ allDefsN V n
+  | .mk _ _ _ _ subs, kv, h => by
+    simp only [allInitsN] at h
+    simp only [allDefsN]
+    exact allInits_sub_allDefsGs V subs kv h
+theorem allInits_sub_allDefsGs (V : Nat → ValueS) :
+    ∀ (gs : List GraphT), ∀ kv ∈ allInitsGs gs, kv.2 ∈ allDefsGs V gs
+  | [], kv, h => by simp [allInitsGs] at h
+  | g :: gs, kv, h => by
+    simp only [allInitsGs, List.mem_append] at h
+    simp only [allDefsGs, List.mem_append]
+    rcases h with h | h
+    · exact .inl (allInits_sub_allDefsG V g kv h)
+    · exact .inr (allInits_sub_allDefsGs V gs kv h)
+end
+
+theorem tablesLt_of_RS {V : Nat → ValueS} {s : Store} {A : Assoc} (hrs : RS V s A) (Ds : List (List Nat))
+    (hvis : ∀ v ∈ Ds.flatten, nameTruthy (V v).name = true → v ∈ A.map (·.1)) :
+    TablesLt s (Ds.map (tableOf V A)) := by
+  intro T hT e he
+  simp only [List.mem_map] at hT
+  obtain ⟨D, hD, rfl⟩ := hT
+  obtain ⟨v, hv, ht, rfl⟩ := tableOf_mem V A D e he
+  exact hrs.sig_lt (hvis v (List.mem_flatten.mpr ⟨D, hD, hv⟩) ht)
+
+theorem emit_falsy_out {i : Info} (h1 : i.ty = none) (h2 : i.doc = none) : ({} : Info) = i.emit := by
+  cases i with
+  | mk ty sh doc => simp only at h1 h2; subst h1; subst h2; simp [Info.emit]
 
 mutual
 theorem rt_graph (V : Nat → ValueS) (td : TData) :
     ∀ (g : GraphT) (s : Store) (A : Assoc) (Ds : List (List Nat)) (p : GraphP) (ws : Writes),
-      serGraph V td g = .ok (p, ws) → SerG V Ds.flatten g → (allDefsG V g).Nodup →
+      serGraph V td g = .ok (p, ws) → SerG V Ds.flatten g → InfoG V g → (allDefsG V g).Nodup →
       (∀ v ∈ allDefsG V g, v ∉ A.map (·.1)) →
       (∀ v ∈ Ds.flatten, nameTruthy (V v).name = true → v ∈ A.map (·.1)) → NamesUnique V Ds.flatten →
-      RS V s A →
+      RS V s A → Fresh s →
       ∃ (s' : Store) (g' : GraphT) (B : Assoc),
         deserGraph s (Ds.map (tableOf V A)) p = .ok (s', g') ∧ RS V s' (A ++ B) ∧ s.nv ≤ s'.nv ∧
-        (∀ v, v ∈ B.map (·.1) ↔ v ∈ allDefsG V g) ∧ TreeRelG V (A ++ B) g g'
-  | .mk gid ins inits nodes outs, s, A, Ds, p, ws, hser, hS, hnd, hnew, hvis, _, hrs => by
+        (∀ v, v ∈ B.map (·.1) ↔ v ∈ allDefsG V g) ∧ TreeRelG V (A ++ B) g g' ∧
+        Fresh s' ∧ Prim s.nv s s' ∧ InfoOK V s' (A ++ B) (allDefsG V g) ∧
+        ConstOK V td s' (A ++ B) (allInitsG g)
+  | .mk gid ins inits nodes outs, s, A, Ds, p, ws, hser, hS, hI, hnd, hnew, hvis, _, hrs, hfr => by
     obtain ⟨nps, vis2, ws2, hn, rfl⟩ := serGraph_inv hser
     simp only [SerG] at hS
     obtain ⟨hDod, hu, hins_t, hinits, hkn, hvn, houts, hSN⟩ := hS
+    simp only [InfoG] at hI
+    obtain ⟨hIinit, hIN⟩ := hI
     have hD : defsOf V (.mk gid ins inits nodes outs) = ins ++ newInits ins inits ++ nodes.flatMap (liveOuts V) := rfl
     simp only [allDefsG] at hnd hnew
     rw [hD] at hnd hnew hDod hu houts hSN
@@ -280,18 +389,31 @@ theorem rt_graph (V : Nat → ValueS) (td : TData) :
         · exact .inl (.inl (.inl hv))
         · exact .inl (.inl (.inr hv))
         · exact .inl (.inr hv))
-    generalize hvi : vinfoTable ((serInits V td (ins.map fun v => (V v).name) inits).1 ++ vis2) = vi
+    -- the value_info list of the proto and what a lookup in it returns
+    have hvis1 := mem_serInits_vi V td (ins.map fun v => (V v).name)
+    have hvis2 := fun e => mem_serNodes_vi V td outs e nodes nps vis2 ws2 hn
+    generalize hLdef : (serInits V td (ins.map fun v => (V v).name) inits).1 ++ vis2 = L at *
+    generalize hvi : vinfoTable L = vi
     -- phase 1: inputs
-    have hins_n : ∀ v ∈ ins, (V v).name ≠ none := fun v hv => by
-      rw [(name_some_of_truthy (hins_t v hv)).1]; simp
-    have r1 := rt_inputs V ins s A hrs hndI (fun v hv => newA v (.inl hv)) hins_n
-    obtain ⟨q1, _, hids⟩ := deserInputs_spec s (ins.map (viOf V))
-    simp only [List.length_map] at hids
+    have hins_n : ∀ v ∈ ins, (V v).name ≠ none := fun v hv => ne_none_of_truthy (hins_t v hv)
+    obtain ⟨r1, hi1⟩ := rt_inputs V ins s A hrs hndI (fun v hv => newA v (.inl hv)) hins_n
+    obtain ⟨q1, hnv1, hids⟩ := deserInputs_spec s (ins.map (viOf V))
+    simp only [List.length_map] at hids hnv1
+    have p1 := deserInputs_prim s.nv (ins.map (viOf V)) s (Nat.le_refl _)
+    have f1 := q1.fresh hfr
+    have ok1 := inputTable_ok s (ins.map (viOf V))
     have htbl1 := rt_inputTable V A ins (List.range' s.nv ins.length) (by simp) hndI
       (fun v hv => newA v (.inl hv)) hins_t
     have hk1 : (A ++ ins.zip (List.range' s.nv ins.length)).map (·.1) = A.map (·.1) ++ ins := by
       rw [List.map_append, keys_zip _ _ (by simp)]
     have hsig1 := sig_zip A ins (List.range' s.nv ins.length) (by simp) hndI (fun v hv => newA v (.inl hv))
+    generalize hA1 : A ++ ins.zip (List.range' s.nv ins.length) = A1 at *
+    generalize hs1 : (deserInputs s (ins.map (viOf V))).1 = s1 at *
+    have hge1 : ∀ v ∈ ins, s.nv ≤ sig A1 v := by
+      intro v hv
+      have : sig A1 v ∈ ins.map (sig A1) := List.mem_map_of_mem hv
+      rw [hsig1, List.mem_range'_1] at this
+      exact this.1
     -- phase 2: initializers
     have hconst : ∀ kv ∈ inits, (V kv.2).const ≠ none := fun kv hkv => (hinits kv hkv).2.2
     have htens := serInits_tensors V td (ins.map fun v => (V v).name) inits hconst
@@ -300,8 +422,7 @@ theorem rt_graph (V : Nat → ValueS) (td : TData) :
       have := nm_of_name (hinits kv hkv).1
       unfold mkT
       split <;> simp [this]
-    obtain ⟨B2, e2t, r2, e2v, k2, l2⟩ := rt_inits V vi ins (mkT V td) inits (deserInputs s (ins.map (viOf V))).1
-      (A ++ ins.zip (List.range' s.nv ins.length)) ins hmk r1
+    obtain ⟨B2, e2t, r2, e2v, k2, l2, c1, c2, c3, c4, _, c6, c7⟩ := rt_inits V vi ins (mkT V td) inits s1 A1 ins hmk r1
       (fun kv hkv => ⟨(hinits kv hkv).1, (hinits kv hkv).2.1⟩) (fun _ _ h => h)
       (fun kv hkv hni => by
         have hm : kv.2 ∈ newInits ins inits := by
@@ -319,8 +440,8 @@ theorem rt_graph (V : Nat → ValueS) (td : TData) :
         b (by simp only [List.mem_append] at hb ⊢; rcases hb with hb | hb
               · exact .inl (.inl (.inl hb))
               · exact .inl (.inl (.inr hb))))
-    have hk2 : ∀ v, v ∈ (A ++ ins.zip (List.range' s.nv ins.length) ++ B2).map (·.1) ↔
-        v ∈ A.map (·.1) ∨ v ∈ ins ∨ v ∈ newInits ins inits := by
+    generalize hs2 : (deserInits s1 (tableOf V A1 ins) vi (inits.map (mkT V td))).1 = s2 at *
+    have hk2 : ∀ v, v ∈ (A1 ++ B2).map (·.1) ↔ v ∈ A.map (·.1) ∨ v ∈ ins ∨ v ∈ newInits ins inits := by
       intro v
       rw [List.map_append, List.mem_append, hk1, List.mem_append, k2]
       constructor
@@ -341,9 +462,8 @@ theorem rt_graph (V : Nat → ValueS) (td : TData) :
       have := SerNs_mem V _ outs nodes hSN _ hn'
       simp only [SerN] at this
       exact this.2.1 v (stripTrailing_sub V b v hv)
-    obtain ⟨B3, s3, e3, r3, k3, l3⟩ := rt_declNodes V vi (liveOuts V) nodes nps _
-      (A ++ ins.zip (List.range' s.nv ins.length) ++ B2) (ins ++ newInits ins inits)
-      (serNodes_outputs V td outs nodes nps vis2 ws2 hn) r2 hLn hndL
+    obtain ⟨B3, s3, e3, r3, k3, l3, i3, g3⟩ := rt_declNodes V vi (liveOuts V) nodes nps s2 (A1 ++ B2)
+      (ins ++ newInits ins inits) (serNodes_outputs V td outs nodes nps vis2 ws2 hn) r2 hLn hndL
       (fun v hv => by
         refine ⟨fun hm => hdisjL v hm v hv rfl, ?_⟩
         rw [hk2]
@@ -359,8 +479,9 @@ theorem rt_graph (V : Nat → ValueS) (td : TData) :
         · exact .inr (.inr hv))
       (fun a ha b hb => hu a (by simp only [List.mem_append] at ha ⊢; exact .inl ha)
         b (by simp only [List.mem_append] at hb ⊢; exact .inl hb))
+    have p3 := declareNodes_prim s2.nv vi nps s2 _ s3 _ (Nat.le_refl _) e3
     -- the association after the three definition phases
-    generalize hA3 : A ++ ins.zip (List.range' s.nv ins.length) ++ B2 ++ B3 = A3 at e3 r3
+    generalize hA3 : A1 ++ B2 ++ B3 = A3 at e3 r3 i3
     have hk3 : ∀ v, v ∈ A3.map (·.1) ↔ v ∈ A.map (·.1) ∨ v ∈ ins ∨ v ∈ newInits ins inits ∨
         (v ∈ nodes.flatMap (liveOuts V) ∧ nameTruthy (V v).name = true) := by
       intro v
@@ -377,10 +498,6 @@ theorem rt_graph (V : Nat → ValueS) (td : TData) :
         · exact .inl (.inr (.inr h))
         · exact .inr h
     have hAA3 : ∀ v, v ∈ A.map (·.1) → v ∈ A3.map (·.1) := fun v hv => (hk3 v).mpr (.inl hv)
-    have hsigA : ∀ v, v ∈ A.map (·.1) → sig A3 v = sig A v := by
-      intro v hv
-      rw [← hA3, List.append_assoc, List.append_assoc]
-      exact sig_append_of_mem hv
     generalize hDdef : ins ++ newInits ins inits ++ nodes.flatMap (liveOuts V) = D at *
     have hDA3 : ∀ v ∈ D, nameTruthy (V v).name = true → v ∈ A3.map (·.1) := by
       intro v hv ht
@@ -398,10 +515,18 @@ theorem rt_graph (V : Nat → ValueS) (td : TData) :
       · exact hDA3 v hv ht
       · exact hAA3 v (hvis v hv ht)
     have hlev : Ds.map (tableOf V A) = Ds.map (tableOf V A3) := by
-      rw [← hA3, List.append_assoc, List.append_assoc]
+      rw [← hA3, ← hA1, List.append_assoc, List.append_assoc]
       exact (levels_extend V A _ Ds hvis).symm
+    have hu' : NamesUnique V D := fun a ha b hb => hu a (by simp [ha]) b (by simp [hb])
+    rw [hids, htbl1] at ok1
+    obtain ⟨q2, ok2, _, _⟩ := deserInits_spec vi (inits.map (mkT V td)) s1 (tableOf V A1 ins) s.nv ok1 q1.nv_le
+    rw [hs2] at q2 ok2
+    rw [e2t] at ok2
+    have f2 := q2.fresh f1
+    have le2 : s.nv ≤ s2.nv := Nat.le_trans q1.nv_le q2.nv_le
+    have f3 : Fresh s3 := ((declareNodes_spec vi nps s2 _ s.nv s3 _ ok2 le2 e3).1).fresh f2
     -- phase 4: the nodes
-    obtain ⟨s4, nts, B4, e4, r4, l4, k4, t4⟩ := rt_nodes V td nodes s3 A3 D Ds outs vi nps vis2 ws2 hn hSN hndN
+    obtain ⟨s4, nts, B4, e4, r4, l4, k4, t4, f4, p4, io4, co4⟩ := rt_nodes V td nodes s3 A3 D Ds outs vi nps vis2 ws2 hn hSN hIN hndN
       (fun v hv hm => by
         rcases (hk3 v).mp hm with h | h | h | h
         · exact hnew v (by simp [hv]) h
@@ -415,40 +540,44 @@ theorem rt_graph (V : Nat → ValueS) (td : TData) :
         · exact hdisjL v (by simp [h]) v hv rfl
         · exact hdisjL v (by simp [h]) v hv rfl
         · exact hf h.2)
-      hndL (fun v hv w hw e => hdisj v (by rw [← hDdef]; simp [hv]) w hw e) hvis3 hu r3
+      hndL (fun v hv w hw e => hdisj v (by rw [← hDdef]; simp [hv]) w hw e) hvis3 hu r3 f3
     -- phase 5: graph outputs
-    have hsig34 : ∀ v, v ∈ A3.map (·.1) → sig (A3 ++ B4) v = sig A3 v := fun v hv => sig_append_of_mem hv
-    obtain ⟨e5, nv5, n5⟩ := rt_outputs V A3 (tableOf V A3 D) outs s4 (fun v hv => by
+    have hinj3 : ∀ a ∈ outs, ∀ b ∈ outs, sig A3 a = sig A3 b → (V a).info = (V b).info := by
+      intro a ha b hb he
+      have := r3.sig_inj (hDA3 a (houts a ha).1 (houts a ha).2) (hDA3 b (houts b hb).1 (houts b hb).2) he
+      rw [this]
+    obtain ⟨e5, nv5, n5, o4, o5, o6, o7, o8⟩ := rt_outputs V A3 (tableOf V A3 D) outs s4 (fun v hv => by
       obtain ⟨hvD, hvt⟩ := houts v hv
-      refine ⟨by rw [(name_some_of_truthy hvt).1]; simp, ?_⟩
+      refine ⟨ne_none_of_truthy hvt, ?_⟩
       exact tableOf_lookup_mem V A3 D (fun a ha b hb => hu a (by simp [ha]) b (by simp [hb])) v hvD hvt)
+    have o8 := o8 hinj3
     have r5 : RS V (deserOutputs s4 (tableOf V A3 D) (outs.map (viOf V))).1 (A3 ++ B4) := r4.same_nv nv5 n5
     -- phase 6: the graph object
     have hrun : deserGraph s (Ds.map (tableOf V A))
-        (GraphP.mk (ins.map (viOf V)) (serInits V td (ins.map fun v => (V v).name) inits).2.1
-          ((serInits V td (ins.map fun v => (V v).name) inits).1 ++ vis2) nps (outs.map (viOf V))) =
+        (GraphP.mk (ins.map (viOf V)) (serInits V td (ins.map fun v => (V v).name) inits).2.1 L nps
+          (outs.map (viOf V))) =
         .ok (mkGraph (deserOutputs s4 (tableOf V A3 D) (outs.map (viOf V))).1 (List.range' s.nv ins.length)
-          (outs.map (sig A3)) nts
-          (inits.map fun kv => sig (A ++ ins.zip (List.range' s.nv ins.length) ++ B2) kv.2)) := by
-      simp only [deserGraph, hvi, htens, hids, htbl1, e2t, e2v, e3, hlev, e4, e5]
-    generalize hs5 : (deserOutputs s4 (tableOf V A3 D) (outs.map (viOf V))).1 = s5 at hrun r5 nv5 n5
-    obtain ⟨c1, _, _⟩ := mkGraph_fst_counters s5 (List.range' s.nv ins.length) (outs.map (sig A3)) nts
-      (inits.map fun kv => sig (A ++ ins.zip (List.range' s.nv ins.length) ++ B2) kv.2)
+          (outs.map (sig A3)) nts (inits.map fun kv => sig (A1 ++ B2) kv.2)) := by
+      simp only [deserGraph, hvi, htens, hids, hs1, htbl1, hs2, e2t, e2v, e3, hlev, e4, e5]
+    generalize hs5 : (deserOutputs s4 (tableOf V A3 D) (outs.map (viOf V))).1 = s5 at *
+    obtain ⟨c1', _, _⟩ := mkGraph_fst_counters s5 (List.range' s.nv ins.length) (outs.map (sig A3)) nts
+      (inits.map fun kv => sig (A1 ++ B2) kv.2)
     have hnames6 : ∀ w, ((mkGraph s5 (List.range' s.nv ins.length) (outs.map (sig A3)) nts
-        (inits.map fun kv => sig (A ++ ins.zip (List.range' s.nv ins.length) ++ B2) kv.2)).1.vals w).name =
-        (s5.vals w).name := by
+        (inits.map fun kv => sig (A1 ++ B2) kv.2)).1.vals w).name = (s5.vals w).name := by
       intro w; rw [mkGraph_cell]
     have hsnd6 := mkGraph_snd s5 (List.range' s.nv ins.length) (outs.map (sig A3)) nts
-      (inits.map fun kv => sig (A ++ ins.zip (List.range' s.nv ins.length) ++ B2) kv.2)
+      (inits.map fun kv => sig (A1 ++ B2) kv.2)
+    have p6 := mkGraph_prim s5.nv s5 (List.range' s.nv ins.length) (outs.map (sig A3)) nts
+      (inits.map fun kv => sig (A1 ++ B2) kv.2)
     generalize hmg : mkGraph s5 (List.range' s.nv ins.length) (outs.map (sig A3)) nts
-      (inits.map fun kv => sig (A ++ ins.zip (List.range' s.nv ins.length) ++ B2) kv.2) = mg at hrun c1 hnames6 hsnd6
+      (inits.map fun kv => sig (A1 ++ B2) kv.2) = mg at hrun c1' hnames6 hsnd6 p6
     obtain ⟨s6, g6⟩ := mg
-    simp only at c1 hnames6 hsnd6
+    simp only at c1' hnames6 hsnd6 p6
     have hAfull : A ++ (ins.zip (List.range' s.nv ins.length) ++ B2 ++ B3 ++ B4) = A3 ++ B4 := by
-      rw [← hA3]; simp [List.append_assoc]
-    have r6 : RS V s6 (A3 ++ B4) := r5.same_nv c1 hnames6
+      rw [← hA3, ← hA1]; simp [List.append_assoc]
+    have r6 : RS V s6 (A3 ++ B4) := r5.same_nv c1' hnames6
     have hinsA3 : ∀ v ∈ ins, v ∈ A3.map (·.1) := fun v hv => (hk3 v).mpr (.inr (.inl hv))
-    have hinitA2 : ∀ kv ∈ inits, kv.2 ∈ (A ++ ins.zip (List.range' s.nv ins.length) ++ B2).map (·.1) := by
+    have hinitA2 : ∀ kv ∈ inits, kv.2 ∈ (A1 ++ B2).map (·.1) := by
       intro kv hkv
       rw [hk2]
       by_cases hi : kv.2 ∈ ins
@@ -456,13 +585,29 @@ theorem rt_graph (V : Nat → ValueS) (td : TData) :
       · refine .inr (.inr ?_)
         simp only [newInits, List.mem_filter, List.mem_map]
         exact ⟨⟨kv, hkv, rfl⟩, by simpa using hi⟩
-    have hA2A3 : ∀ v, v ∈ (A ++ ins.zip (List.range' s.nv ins.length) ++ B2).map (·.1) → sig (A3 ++ B4) v =
-        sig (A ++ ins.zip (List.range' s.nv ins.length) ++ B2) v := by
+    have hA2A3 : ∀ v, v ∈ (A1 ++ B2).map (·.1) → sig (A3 ++ B4) v = sig (A1 ++ B2) v := by
       intro v hv
       rw [← hA3, List.append_assoc _ B3 B4]
       exact sig_append_of_mem hv
-    refine ⟨s6, g6, ins.zip (List.range' s.nv ins.length) ++ B2 ++ B3 ++ B4, hrun, by rw [hAfull]; exact r6, ?_, ?_, ?_⟩
-    · rw [c1, nv5]
+    have hTL := tablesLt_of_RS hrs Ds hvis
+    obtain ⟨f6, _⟩ := deserGraph_struct _ s _ s6 g6 hfr hTL hrun
+    have pfull := deserGraph_prim _ s _ s6 g6 hfr hTL hrun
+    -- frames from the end of phase 4 to the end
+    have hframe46 : ∀ d, (∀ o ∈ outs, sig A3 o ≠ d) → (s6.vals d).info = (s4.vals d).info := by
+      intro d hd
+      by_cases hlt : d < s5.nv
+      · rw [(p6.cell d hlt).1, o4 d hd]
+      · have hge : s5.nv ≤ d := Nat.le_of_not_lt hlt
+        rw [f6 d (by rw [c1']; exact hge), f4 d (by rw [← nv5]; exact hge)]
+    have hconst46 : ∀ d, d < s4.nv → (s6.vals d).const = (s4.vals d).const := by
+      intro d hd
+      rw [(p6.cell d (by rw [nv5]; exact hd)).2, o5 d]
+    have htens46 : ∀ t, t < s4.nt → s6.tens t = s4.tens t := by
+      intro t ht
+      rw [p6.tens t (by rw [o7]; exact ht), o6]
+    refine ⟨s6, g6, ins.zip (List.range' s.nv ins.length) ++ B2 ++ B3 ++ B4, hrun, by rw [hAfull]; exact r6, ?_, ?_, ?_,
+      f6, pfull, ?_, ?_⟩
+    · rw [c1', nv5]
       have := q1.nv_le
       omega
     · intro v
@@ -490,11 +635,10 @@ theorem rt_graph (V : Nat → ValueS) (td : TData) :
       refine ⟨?_, fun v hv => mem_keys_append (hinsA3 v hv), ?_, ?_, TreeRelNs_setGraph V _ _ nodes nts t4, ?_, ?_⟩
       · rw [map_sig_append hinsA3]
         refine (Eq.trans (List.map_congr_left (fun v hv => ?_)) hsig1).symm
-        rw [← hA3, List.append_assoc (A ++ ins.zip (List.range' s.nv ins.length)) B2 B3]
+        rw [← hA3, List.append_assoc A1 B2 B3]
         exact sig_append_of_mem (by rw [hk1]; exact List.mem_append.mpr (.inr hv))
       · -- the initializer dict
-        have hnm : ∀ kv ∈ inits, ((s5.vals (sig (A ++ ins.zip (List.range' s.nv ins.length) ++ B2) kv.2)).name).getD "" =
-            kv.1 := by
+        have hnm : ∀ kv ∈ inits, ((s5.vals (sig (A1 ++ B2) kv.2)).name).getD "" = kv.1 := by
           intro kv hkv
           have hmem : kv.2 ∈ (A3 ++ B4).map (·.1) := mem_keys_append (by
             rw [← hA3]; exact mem_keys_append (hinitA2 kv hkv))
@@ -511,20 +655,20 @@ theorem rt_graph (V : Nat → ValueS) (td : TData) :
           have e := hnm kv hkv
           rw [show ((setOwner (setOwner s5 s5.ng (fun c => { c with isIn := true }) (List.range' s.nv ins.length)) s5.ng
               (fun c => { c with isOut := true }) (outs.map (sig A3))).vals
-              (sig (A ++ ins.zip (List.range' s.nv ins.length) ++ B2) kv.2)).name = (s5.vals _).name from
+              (sig (A1 ++ B2) kv.2)).name = (s5.vals _).name from
             (setOwner_name _ _ (fun c => { c with isOut := true }) (fun _ => rfl) _ _).trans
               (setOwner_name _ _ (fun c => { c with isIn := true }) (fun _ => rfl) _ _)]
           rw [e, hA2A3 _ (hinitA2 kv hkv)]
         · simp only [List.map_nil, List.nil_append, List.map_map]
           have : (inits.map ((fun x => (((setOwner (setOwner s5 s5.ng (fun c => { c with isIn := true })
               (List.range' s.nv ins.length)) s5.ng (fun c => { c with isOut := true }) (outs.map (sig A3))).vals x).name).getD "") ∘
-              fun kv => sig (A ++ ins.zip (List.range' s.nv ins.length) ++ B2) kv.2)) = inits.map (·.1) := by
+              fun kv => sig (A1 ++ B2) kv.2)) = inits.map (·.1) := by
             apply List.map_congr_left
             intro kv hkv
             simp only [Function.comp]
             rw [show ((setOwner (setOwner s5 s5.ng (fun c => { c with isIn := true }) (List.range' s.nv ins.length)) s5.ng
                 (fun c => { c with isOut := true }) (outs.map (sig A3))).vals
-                (sig (A ++ ins.zip (List.range' s.nv ins.length) ++ B2) kv.2)).name = (s5.vals _).name from
+                (sig (A1 ++ B2) kv.2)).name = (s5.vals _).name from
               (setOwner_name _ _ (fun c => { c with isOut := true }) (fun _ => rfl) _ _).trans
                 (setOwner_name _ _ (fun c => { c with isIn := true }) (fun _ => rfl) _ _)]
             exact hnm kv hkv
@@ -535,38 +679,248 @@ theorem rt_graph (V : Nat → ValueS) (td : TData) :
       · rw [map_sig_append (fun v hv => hDA3 v (houts v hv).1 (houts v hv).2)]
       · intro v hv
         exact mem_keys_append (hDA3 v (houts v hv).1 (houts v hv).2)
+    · -- the information of every defined value
+      rw [hAfull]
+      -- every value_info entry carrying the name of a definition was written for that definition
+      have hsrc : ∀ v ∈ D, nameTruthy (V v).name = true → ∀ e ∈ L, e.name = nm V v →
+          shouldCreate (V v) = true ∧ e.info = (V v).info.emit := by
+        intro v hvD ht e he hname
+        rw [← hLdef, List.mem_append] at he
+        rcases he with he | he
+        · rw [hvis1] at he
+          obtain ⟨kv', hkv', hsc, hnin, rfl⟩ := he
+          simp only at hname
+          have hut : nameTruthy (V kv'.2).name = true := by
+            simp only [shouldCreate, Bool.and_eq_true] at hsc; exact hsc.2
+          have hni : kv'.2 ∉ ins := by
+            intro hm
+            exact hnin (List.mem_map.mpr ⟨kv'.2, hm, rfl⟩)
+          have hmem : kv'.2 ∈ D := by
+            rw [← hDdef]
+            simp only [List.mem_append]
+            refine .inl (.inr ?_)
+            simp only [newInits, List.mem_filter, List.mem_map]
+            exact ⟨⟨kv', hkv', rfl⟩, by simpa using hni⟩
+          have : kv'.2 = v := by
+            apply hu' _ hmem v hvD hut
+            rw [(name_some_of_truthy hut).1, hname, (name_some_of_truthy ht).1]
+          rw [← this]; exact ⟨hsc, rfl⟩
+        · rw [hvis2] at he
+          obtain ⟨n, hn', he⟩ := he
+          rw [mem_outVInfo] at he
+          obtain ⟨u, hu0, _, hsc, rfl⟩ := he
+          simp only at hname ⊢
+          have hut : nameTruthy (V u).name = true := by
+            simp only [shouldCreate, Bool.and_eq_true] at hsc; exact hsc.2
+          have hmem : u ∈ D := by
+            rw [← hDdef]
+            simp only [List.mem_append, List.mem_flatMap]
+            right
+            obtain ⟨i, g, a, b, c⟩ := n
+            exact ⟨_, hn', truthy_mem_stripTrailing V u b hu0 hut⟩
+          have : u = v := by
+            apply hu' u hmem v hvD hut
+            rw [(name_some_of_truthy hut).1, hname, (name_some_of_truthy ht).1]
+          rw [← this]; exact ⟨hsc, rfl⟩
+      intro v hv
+      simp only [allDefsG, List.mem_append] at hv
+      rw [hD] at hv
+      by_cases hvo : v ∈ outs
+      · -- a graph output takes what its output entry says
+        have hmem := hDA3 v (houts v hvo).1 (houts v hvo).2
+        rw [sig_append_of_mem hmem]
+        have hlt5 : sig A3 v < s5.nv := by rw [nv5]; exact Nat.lt_of_lt_of_le (r3.sig_lt hmem) l4
+        rw [(p6.cell _ hlt5).1]
+        exact o8 v hvo
+      · -- not a graph output: the cell is not touched by phases 5 and 6
+        have hnot : v ∈ (A3 ++ B4).map (·.1) → ∀ o ∈ outs, sig A3 o ≠ sig (A3 ++ B4) v := by
+          intro hmem o ho heq
+          have hmo := hDA3 o (houts o ho).1 (houts o ho).2
+          rw [← sig_append_of_mem (B := B4) hmo] at heq
+          have := r4.sig_inj (mem_keys_append hmo) hmem heq
+          exact hvo (this ▸ ho)
+        have hB4 : ∀ w, ((w ∈ nodes.flatMap (liveOuts V) ∧ ¬ nameTruthy (V w).name = true) ∨ w ∈ allDefsNs V nodes) →
+            (s6.vals (sig (A3 ++ B4) w)).info = (V w).info.emit := by
+          intro w hw
+          have hmem : w ∈ (A3 ++ B4).map (·.1) := by
+            rw [List.map_append, List.mem_append]; exact .inr ((k4 w).mpr hw)
+          by_cases hwo : w ∈ outs
+          · exact absurd (houts w hwo).2 (by
+              rcases hw with hw | hw
+              · exact hw.2
+              · exact fun _ => hdisj w (houts w hwo).1 w hw rfl)
+          · have hnot' : ∀ o ∈ outs, sig A3 o ≠ sig (A3 ++ B4) w := by
+              intro o ho heq
+              have hmo := hDA3 o (houts o ho).1 (houts o ho).2
+              rw [← sig_append_of_mem (B := B4) hmo] at heq
+              have := r4.sig_inj (mem_keys_append hmo) hmem heq
+              exact hwo (this ▸ ho)
+            rw [hframe46 _ hnot']
+            apply io4 w
+            simp only [List.mem_append, List.mem_filter]
+            rcases hw with hw | hw
+            · exact .inl ⟨hw.1, by simpa using hw.2⟩
+            · exact .inr hw
+        rcases hv with hvD | hvN
+        · by_cases ht : nameTruthy (V v).name = true
+          · have hmem := hDA3 v hvD ht
+            rw [hframe46 _ (hnot (mem_keys_append hmem)), sig_append_of_mem hmem,
+              (p4.cell _ (r3.sig_lt hmem)).1]
+            have hvD' := hvD
+            rw [← hDdef] at hvD'
+            simp only [List.mem_append] at hvD'
+            rcases hvD' with (hvi' | hvni) | hvl
+            · -- a graph input
+              have hm1 : v ∈ A1.map (·.1) := by rw [hk1]; simp [hvi']
+              have e13 : sig A3 v = sig A1 v := by
+                rw [← hA3, List.append_assoc]; exact sig_append_of_mem hm1
+              rw [e13, (p3.cell _ (Nat.lt_of_lt_of_le (r1.sig_lt hm1) l2)).1, c3 _ (r1.sig_lt hm1)]
+              exact hi1 v hvi'
+            · -- an initializer of its own: the value_info entry carries its information
+              have hkv : ∃ kv ∈ inits, kv.2 = v := by
+                simp only [newInits, List.mem_filter, List.mem_map] at hvni
+                obtain ⟨⟨kv, hkv, e⟩, _⟩ := hvni
+                exact ⟨kv, hkv, e⟩
+              obtain ⟨kv, hkv, rfl⟩ := hkv
+              have hni : kv.2 ∉ ins := by
+                simp only [newInits, List.mem_filter] at hvni
+                simpa using hvni.2
+              have hm2 : kv.2 ∈ (A1 ++ B2).map (·.1) := hinitA2 kv hkv
+              have e23 : sig A3 kv.2 = sig (A1 ++ B2) kv.2 := by
+                rw [← hA3]; exact sig_append_of_mem hm2
+              rw [e23, (p3.cell _ (r2.sig_lt hm2)).1, c1 kv hkv hni]
+              obtain ⟨hty, hsh⟩ := hIinit kv hkv hni hvo
+              have hknm : nm V kv.2 = kv.1 := nm_of_name (hinits kv hkv).1
+              have hent : (⟨kv.1, (V kv.2).info.emit⟩ : VInfoP) ∈ L := by
+                rw [← hLdef, List.mem_append]
+                left
+                rw [hvis1]
+                refine ⟨kv, hkv, ?_, ?_, by rw [hknm]⟩
+                · simp only [shouldCreate, Info.present, Bool.and_eq_true, Bool.or_eq_true]
+                  exact ⟨.inl (by simpa [Option.isSome_iff_ne_none] using hty), ht⟩
+                · intro hm
+                  simp only [List.mem_map] at hm
+                  obtain ⟨u, hu0, hname⟩ := hm
+                  have : u = kv.2 := by
+                    apply hu' u (by rw [← hDdef]; simp [hu0]) kv.2 hvD (hins_t u hu0) hname
+                  exact hni (this ▸ hu0)
+              have hlook : vi.lookup kv.1 = some (V kv.2).info.emit := by
+                rw [← hvi]
+                exact vinfoTable_lookup_some L kv.1 _
+                  (fun e he hname => (hsrc kv.2 hvD ht e he (by rw [hknm]; exact hname)).2) ⟨_, hent, rfl⟩
+              simp only [initInfo, hlook]
+              exact emit_orTensor hty hsh
+            · -- a node output that is not a graph output
+              rw [i3 v hvl ht]
+              by_cases hsc : shouldCreate (V v) = true
+              · have hent : (⟨nm V v, (V v).info.emit⟩ : VInfoP) ∈ L := by
+                  rw [← hLdef, List.mem_append]
+                  right
+                  rw [hvis2]
+                  simp only [List.mem_flatMap] at hvl
+                  obtain ⟨n, hn', hvn'⟩ := hvl
+                  refine ⟨n, hn', ?_⟩
+                  rw [mem_outVInfo]
+                  obtain ⟨i, g, a, b, c⟩ := n
+                  exact ⟨v, stripTrailing_sub V b v hvn', hvo, hsc, rfl⟩
+                have hlook : vi.lookup (nm V v) = some (V v).info.emit := by
+                  rw [← hvi]
+                  exact vinfoTable_lookup_some L _ _ (fun e he hname => (hsrc v hvD ht e he hname).2) ⟨_, hent, rfl⟩
+                simp only [declInfo, hlook]
+              · have hlook : vi.lookup (nm V v) = none := by
+                  rw [← hvi]
+                  exact vinfoTable_lookup_none L _ (fun e he hname => hsc (hsrc v hvD ht e he hname).1)
+                simp only [declInfo, hlook]
+                have hnp : (V v).info.present = false := by
+                  simp only [shouldCreate, Bool.and_eq_true, ht, and_true] at hsc
+                  simpa using hsc
+                exact (emit_of_not_present hnp).symm
+          · -- an empty-named output: bound while its node was built
+            have hvl : v ∈ nodes.flatMap (liveOuts V) := by
+              rw [← hDdef] at hvD
+              simp only [List.mem_append] at hvD
+              rcases hvD with (h | h) | h
+              · exact absurd (hins_t v h) ht
+              · have : ∃ kv ∈ inits, kv.2 = v := by
+                  simp only [newInits, List.mem_filter, List.mem_map] at h
+                  obtain ⟨⟨kv, hkv, e⟩, _⟩ := h
+                  exact ⟨kv, hkv, e⟩
+                obtain ⟨kv, hkv, rfl⟩ := this
+                exact absurd (by simp [nameTruthy, (hinits kv hkv).1, (hinits kv hkv).2.1]) ht
+              · exact h
+            exact hB4 v (.inl ⟨hvl, ht⟩)
+        · exact hB4 v (.inr hvN)
+    · -- the initializer tensors
+      rw [hAfull]
+      intro kv hkv t ht
+      simp only [allInitsG, List.mem_append] at hkv
+      rcases hkv with hkv | hkv
+      · obtain ⟨t', h1, h2, h3⟩ := c2 kv hkv
+        have hm2 := hinitA2 kv hkv
+        have hlt2 := r2.sig_lt hm2
+        have hmem3 : kv.2 ∈ A3.map (·.1) := by rw [← hA3]; exact mem_keys_append hm2
+        refine ⟨t', ?_, ?_, ?_, ?_⟩
+        · rw [hA2A3 _ hm2, hconst46 _ (Nat.lt_of_lt_of_le hlt2 (Nat.le_trans l3 l4)),
+            (p4.cell _ (Nat.lt_of_lt_of_le hlt2 l3)).2, (p3.cell _ hlt2).2]
+          exact h1
+        · have := p3.nt_le
+          have := p4.nt_le
+          have := p6.nt_le
+          rw [o7] at this
+          omega
+        · rw [htens46 t' (Nat.lt_of_lt_of_le h2 (Nat.le_trans p3.nt_le p4.nt_le)),
+            p4.tens t' (Nat.lt_of_lt_of_le h2 p3.nt_le), p3.tens t' h2, h3]
+        · simp only [Store.tdata]
+          rw [htens46 t' (Nat.lt_of_lt_of_le h2 (Nat.le_trans p3.nt_le p4.nt_le)),
+            p4.tens t' (Nat.lt_of_lt_of_le h2 p3.nt_le), p3.tens t' h2, h3]
+          simp [mkT, ht]
+      · obtain ⟨t', h1, h2, h3, h4⟩ := co4 kv hkv t ht
+        have hmem : kv.2 ∈ (A3 ++ B4).map (·.1) := by
+          rw [List.map_append, List.mem_append]
+          exact .inr ((k4 kv.2).mpr (.inr (allInits_sub_allDefsNs V nodes kv hkv)))
+        refine ⟨t', ?_, ?_, ?_, ?_⟩
+        · rw [hconst46 _ (r4.sig_lt hmem)]; exact h1
+        · have := p6.nt_le
+          rw [o7] at this
+          omega
+        · rw [htens46 t' h2]; exact h3
+        · simp only [Store.tdata] at h4 ⊢
+          rw [htens46 t' h2]; exact h4
 theorem rt_nodes (V : Nat → ValueS) (td : TData) :
     ∀ (nodes : List NodeT) (s : Store) (A : Assoc) (D : List Nat) (Ds : List (List Nat)) (gouts : List Nat)
       (vi : List (Name × Info)) (nps : List NodeP) (vis : List VInfoP) (ws : Writes),
-      serNodes V td gouts nodes = .ok (nps, vis, ws) → SerNs V (D ++ Ds.flatten) gouts nodes →
+      serNodes V td gouts nodes = .ok (nps, vis, ws) → SerNs V (D ++ Ds.flatten) gouts nodes → InfoNs V nodes →
       (allDefsNs V nodes).Nodup → (∀ v ∈ allDefsNs V nodes, v ∉ A.map (·.1)) →
       (∀ v ∈ nodes.flatMap (liveOuts V), v ∈ D ∧ (nameTruthy (V v).name = true → v ∈ A.map (·.1)) ∧
         (¬ nameTruthy (V v).name = true → v ∉ A.map (·.1))) →
       (nodes.flatMap (liveOuts V)).Nodup →
       (∀ v ∈ nodes.flatMap (liveOuts V), ∀ w ∈ allDefsNs V nodes, v ≠ w) →
       (∀ v ∈ D ++ Ds.flatten, nameTruthy (V v).name = true → v ∈ A.map (·.1)) →
-      NamesUnique V (D ++ Ds.flatten) → RS V s A →
+      NamesUnique V (D ++ Ds.flatten) → RS V s A → Fresh s →
       ∃ (s' : Store) (nts : List NodeT) (B : Assoc),
         deserNodes s (tableOf V A D) (Ds.map (tableOf V A)) vi nps = .ok (s', tableOf V A D, nts) ∧
         RS V s' (A ++ B) ∧ s.nv ≤ s'.nv ∧
         (∀ v, v ∈ B.map (·.1) ↔ (v ∈ nodes.flatMap (liveOuts V) ∧ ¬ nameTruthy (V v).name = true) ∨
           v ∈ allDefsNs V nodes) ∧
-        TreeRelNs V (A ++ B) nodes nts
-  | [], s, A, D, Ds, gouts, vi, nps, vis, ws, hser, _, _, _, _, _, _, _, _, hrs => by
+        TreeRelNs V (A ++ B) nodes nts ∧ Fresh s' ∧ Prim s.nv s s' ∧
+        InfoOK V s' (A ++ B) ((nodes.flatMap (liveOuts V)).filter (fun v => !nameTruthy (V v).name) ++ allDefsNs V nodes) ∧
+        ConstOK V td s' (A ++ B) (allInitsNs nodes)
+  | [], s, A, D, Ds, gouts, vi, nps, vis, ws, hser, _, _, _, _, _, _, _, _, _, hrs, hfr => by
     simp only [serNodes, Except.ok.injEq, Prod.mk.injEq] at hser
     obtain ⟨rfl, _, _⟩ := hser
     exact ⟨s, [], [], by simp [deserNodes], by simpa using hrs, Nat.le_refl _, by simp [allDefsNs],
-      by simp [TreeRelNs]⟩
-  | n :: rest, s, A, D, Ds, gouts, vi, nps, vis, ws, hser, hS, hnd, hnew, hL, hLnd, hLdisj, hvis, hu, hrs => by
+      by simp [TreeRelNs], hfr, Prim.refl _ _, by simp [InfoOK, allDefsNs], by simp [ConstOK, allInitsNs]⟩
+  | n :: rest, s, A, D, Ds, gouts, vi, nps, vis, ws, hser, hS, hI, hnd, hnew, hL, hLnd, hLdisj, hvis, hu, hrs, hfr => by
     obtain ⟨np, vi1, ws1, nps', vis', ws2, h1, h2, rfl⟩ := serNodes_inv hser
     simp only [SerNs] at hS
+    simp only [InfoNs] at hI
     simp only [allDefsNs] at hnd hnew hLdisj
     simp only [List.flatMap_cons] at hL hLnd hLdisj
     rw [List.nodup_append] at hnd hLnd
-    obtain ⟨s1, n', B1, e1, r1, l1, k1, t1⟩ := rt_node V td n s A D Ds gouts vi np vi1 ws1 h1 hS.1 hnd.1
+    obtain ⟨s1, n', B1, e1, r1, l1, k1, t1, f1, p1, io1, co1⟩ := rt_node V td n s A D Ds gouts vi np vi1 ws1 h1 hS.1 hI.1 hnd.1
       (fun v hv => hnew v (by simp [hv]))
       (fun v hv => hL v (by simp [hv])) hLnd.1
-      (fun v hv w hw => hLdisj v (by simp [hv]) w (by simp [hw])) hvis hu hrs
+      (fun v hv w hw => hLdisj v (by simp [hv]) w (by simp [hw])) hvis hu hrs hfr
     have hkeys1 : ∀ v, v ∈ (A ++ B1).map (·.1) ↔ v ∈ A.map (·.1) ∨
         (v ∈ liveOuts V n ∧ ¬ nameTruthy (V v).name = true) ∨ v ∈ allDefsN V n := by
       intro v; rw [List.map_append, List.mem_append, k1]
@@ -574,7 +928,8 @@ theorem rt_nodes (V : Nat → ValueS) (td : TData) :
       tableOf_extend' V A B1 D (fun v hv ht => hvis v (by simp [hv]) ht)
     have hlev : Ds.map (tableOf V (A ++ B1)) = Ds.map (tableOf V A) :=
       levels_extend V A B1 Ds (fun v hv ht => hvis v (by simp [hv]) ht)
-    obtain ⟨s2, nts, B2, e2, r2, l2, k2, t2⟩ := rt_nodes V td rest s1 (A ++ B1) D Ds gouts vi nps' vis' ws2 h2 hS.2 hnd.2.1
+    obtain ⟨s2, nts, B2, e2, r2, l2, k2, t2, f2, p2, io2, co2⟩ := rt_nodes V td rest s1 (A ++ B1) D Ds gouts vi nps' vis' ws2 h2 hS.2 hI.2
+      hnd.2.1
       (fun v hv hm => by
         rcases (hkeys1 v).mp hm with h | h | h
         · exact hnew v (by simp [hv]) h
@@ -588,9 +943,12 @@ theorem rt_nodes (V : Nat → ValueS) (td : TData) :
         · exact hLnd.2.2 v h.1 v hv rfl
         · exact hLdisj v (by simp [hv]) v (by simp [h]) rfl)
       hLnd.2.1 (fun v hv w hw => hLdisj v (by simp [hv]) w (by simp [hw]))
-      (fun v hv ht => mem_keys_append (hvis v hv ht)) hu r1
+      (fun v hv ht => mem_keys_append (hvis v hv ht)) hu r1 f1
     rw [hlevD, hlev] at e2
-    refine ⟨s2, n' :: nts, B1 ++ B2, ?_, by simpa [List.append_assoc] using r2, Nat.le_trans l1 l2, ?_, ?_⟩
+    have hk1mem : ∀ v, ((v ∈ liveOuts V n ∧ ¬ nameTruthy (V v).name = true) ∨ v ∈ allDefsN V n) →
+        v ∈ (A ++ B1).map (·.1) := fun v hv => (hkeys1 v).mpr (.inr hv)
+    refine ⟨s2, n' :: nts, B1 ++ B2, ?_, by simpa [List.append_assoc] using r2, Nat.le_trans l1 l2, ?_, ?_, f2,
+      p1.trans (p2.weaken l1), ?_, ?_⟩
     · simp only [deserNodes, e1, e2]
     · intro v
       rw [List.map_append, List.mem_append, k1, k2]
@@ -609,25 +967,50 @@ theorem rt_nodes (V : Nat → ValueS) (td : TData) :
     · simp only [TreeRelNs]
       rw [← List.append_assoc]
       exact ⟨TreeRelN.mono V (A ++ B1) B2 n n' t1, t2⟩
+    · rw [← List.append_assoc]
+      have io1' := io1.step (B := B2) (fun v hv => by
+        simp only [List.mem_append, List.mem_filter] at hv
+        rcases hv with hv | hv
+        · exact hk1mem v (.inl ⟨hv.1, by simpa using hv.2⟩)
+        · exact hk1mem v (.inr hv)) r1 p2
+      intro v hv
+      simp only [List.flatMap_cons, List.filter_append, allDefsNs, List.mem_append] at hv
+      rcases hv with (hv | hv) | (hv | hv)
+      · exact io1' v (by simp only [List.mem_append]; exact .inl hv)
+      · exact io2 v (by simp only [List.mem_append]; exact .inl hv)
+      · exact io1' v (by simp only [List.mem_append]; exact .inr hv)
+      · exact io2 v (by simp only [List.mem_append]; exact .inr hv)
+    · rw [← List.append_assoc]
+      have co1' := co1.step (B := B2) (fun kv hkv => hk1mem kv.2 (.inr (allInits_sub_allDefsN V n kv hkv))) r1 p2
+      intro kv hkv
+      simp only [allInitsNs, List.mem_append] at hkv
+      rcases hkv with hkv | hkv
+      · exact co1' kv hkv
+      · exact co2 kv hkv
 theorem rt_node (V : Nat → ValueS) (td : TData) :
     ∀ (n : NodeT) (s : Store) (A : Assoc) (D : List Nat) (Ds : List (List Nat)) (gouts : List Nat)
       (vi : List (Name × Info)) (np : NodeP) (vis : List VInfoP) (ws : Writes),
-      serNode V td gouts n = .ok (np, vis, ws) → SerN V (D ++ Ds.flatten) gouts n →
+      serNode V td gouts n = .ok (np, vis, ws) → SerN V (D ++ Ds.flatten) gouts n → InfoN V n →
       (allDefsN V n).Nodup → (∀ v ∈ allDefsN V n, v ∉ A.map (·.1)) →
       (∀ v ∈ liveOuts V n, v ∈ D ∧ (nameTruthy (V v).name = true → v ∈ A.map (·.1)) ∧
         (¬ nameTruthy (V v).name = true → v ∉ A.map (·.1))) →
       (liveOuts V n).Nodup → (∀ v ∈ liveOuts V n, ∀ w ∈ allDefsN V n, v ≠ w) →
       (∀ v ∈ D ++ Ds.flatten, nameTruthy (V v).name = true → v ∈ A.map (·.1)) →
-      NamesUnique V (D ++ Ds.flatten) → RS V s A →
+      NamesUnique V (D ++ Ds.flatten) → RS V s A → Fresh s →
       ∃ (s' : Store) (n' : NodeT) (B : Assoc),
         deserNode s (tableOf V A D) (Ds.map (tableOf V A)) vi np = .ok (s', tableOf V A D, n') ∧
         RS V s' (A ++ B) ∧ s.nv ≤ s'.nv ∧
         (∀ v, v ∈ B.map (·.1) ↔ (v ∈ liveOuts V n ∧ ¬ nameTruthy (V v).name = true) ∨ v ∈ allDefsN V n) ∧
-        TreeRelN V (A ++ B) n n'
-  | .mk i g ins outs subs, s, A, D, Ds, gouts, vi, np, vis, ws, hser, hS, hnd, hnew, hL, hLnd, hLdisj, hvis, hu, hrs => by
-    obtain ⟨gps, ws', hs, rfl⟩ := serNode_inv hser
+        TreeRelN V (A ++ B) n n' ∧ Fresh s' ∧ Prim s.nv s s' ∧
+        InfoOK V s' (A ++ B) ((liveOuts V n).filter (fun v => !nameTruthy (V v).name) ++ allDefsN V n) ∧
+        ConstOK V td s' (A ++ B) (allInitsN n)
+  | .mk i g ins outs subs, s, A, D, Ds, gouts, vi, np, vis, ws, hser, hS, hI, hnd, hnew, hL, hLnd, hLdisj, hvis, hu,
+      hrs, hfr => by
+    obtain ⟨gps, ws', hs, rfl, _⟩ := serNode_inv hser
     simp only [SerN] at hS
     obtain ⟨hins, houtn, hSG⟩ := hS
+    simp only [InfoN] at hI
+    obtain ⟨hIout, hIG⟩ := hI
     simp only [allDefsN] at hnd hnew hLdisj
     simp only [liveOuts] at hL hLnd hLdisj
     -- inputs resolve to the images of the referenced values
@@ -637,11 +1020,14 @@ theorem rt_node (V : Nat → ValueS) (td : TData) :
       have := rt_resolve V A (D :: Ds) (by simpa using hu) v (by simpa using hvv) hvt
       simpa using this)
     -- outputs
-    obtain ⟨B1, s2, e2, r2, k1, l2, _⟩ := rt_lookupOutputs V (tableOf V A D) (stripTrailing V outs) s A hrs
+    obtain ⟨B1, s2, e2, r2, k1, l2, fr2, io2, g2, tn2, nt2⟩ := rt_lookupOutputs V (tableOf V A D) (stripTrailing V outs) s A hrs
       (fun v hv => houtn v (stripTrailing_sub V outs v hv)) hLnd
       (fun v hv ht => ⟨tableOf_lookup_mem V A D (fun a ha b hb => hu a (by simp [ha]) b (by simp [hb])) v
         (hL v hv).1 ht, (hL v hv).2.1 ht⟩)
       (fun v hv hf => (hL v hv).2.2 hf)
+    have f2 : Fresh s2 := ((lookupOutputs_spec _ _ _ _ _ e2).1).fresh hfr
+    have p2 : Prim s.nv s s2 := ⟨fun v hv => by rw [fr2 v hv]; exact ⟨rfl, rfl⟩, by rw [nt2]; exact Nat.le_refl _,
+      fun t _ => by rw [tn2]⟩
     have hkeys1 : ∀ v, v ∈ (A ++ B1).map (·.1) ↔ v ∈ A.map (·.1) ∨
         (v ∈ stripTrailing V outs ∧ ¬ nameTruthy (V v).name = true) := by
       intro v
@@ -651,21 +1037,51 @@ theorem rt_node (V : Nat → ValueS) (td : TData) :
     have hlev : (D :: Ds).map (tableOf V (A ++ B1)) = tableOf V A D :: Ds.map (tableOf V A) := by
       have := levels_extend V A B1 (D :: Ds) (by simpa using hvis)
       simpa using this
-    obtain ⟨s3, gts, B2, e3, r3, l3, k2, t3⟩ := rt_subs V td subs s2 (A ++ B1) (D :: Ds) gps ws' hs
-      (by simpa using hSG) hnd
+    obtain ⟨s3, gts, B2, e3, r3, l3, k2, t3, f3, p3, io3, co3⟩ := rt_subs V td subs s2 (A ++ B1) (D :: Ds) gps ws' hs
+      (by simpa using hSG) hIG hnd
       (fun v hv hm => by
         rcases (hkeys1 v).mp hm with h | h
         · exact hnew v hv h
         · exact hLdisj v h.1 v hv rfl)
-      (fun v hv ht => mem_keys_append (hvis v (by simpa using hv) ht)) (by simpa using hu) r2
+      (fun v hv ht => mem_keys_append (hvis v (by simpa using hv) ht)) (by simpa using hu) r2 f2
     rw [hlev] at e3
+    have hLkeys : ∀ v ∈ stripTrailing V outs, v ∈ (A ++ B1).map (·.1) := by
+      intro v hv
+      rw [hkeys1]
+      by_cases ht : nameTruthy (V v).name = true
+      · exact .inl ((hL v hv).2.1 ht)
+      · exact .inr ⟨hv, ht⟩
+    have hinA : ∀ v, some v ∈ ins → v ∈ A.map (·.1) := fun v hv => hvis v (hins v hv).1 (hins v hv).2
     -- the node object
+    have pm := mkNode_prim s3.nv s3 (ins.map (Option.map (sig A))) ((stripTrailing V outs).map (sig (A ++ B1))) gts
     have r4 : RS V (mkNode s3 (ins.map (Option.map (sig A))) ((stripTrailing V outs).map (sig (A ++ B1))) gts).1
         (A ++ B1 ++ B2) :=
       r3.same_nv (mkNode_fst_nv _ _ _ _) (fun w => (mkNode_keeps _ _ _ _ w).1)
+    have f4 : Fresh (mkNode s3 (ins.map (Option.map (sig A))) ((stripTrailing V outs).map (sig (A ++ B1))) gts).1 := by
+      apply mkNode_fresh _ _ _ _ f3
+      · intro v hv
+        simp only [List.mem_map] at hv
+        obtain ⟨o, ho, he⟩ := hv
+        cases o with
+        | none => simp at he
+        | some w =>
+          simp only [Option.map_some, Option.some.injEq] at he
+          subst he
+          exact Nat.lt_of_lt_of_le (hrs.sig_lt (hinA w ho)) (Nat.le_trans l2 l3)
+      · intro v hv
+        simp only [List.mem_map] at hv
+        obtain ⟨w, hw, rfl⟩ := hv
+        exact Nat.lt_of_lt_of_le (r2.sig_lt (hLkeys w hw)) l3
+    have io2' : InfoOK V s2 (A ++ B1) ((stripTrailing V outs).filter (fun v => !nameTruthy (V v).name)) := by
+      intro v hv
+      simp only [List.mem_filter] at hv
+      have hf : ¬ nameTruthy (V v).name = true := by simpa using hv.2
+      rw [io2 v hv.1 hf]
+      exact emit_falsy_out (hIout v hv.1 hf).1 (hIout v hv.1 hf).2
     refine ⟨(mkNode s3 (ins.map (Option.map (sig A))) ((stripTrailing V outs).map (sig (A ++ B1))) gts).1,
       (mkNode s3 (ins.map (Option.map (sig A))) ((stripTrailing V outs).map (sig (A ++ B1))) gts).2, B1 ++ B2, ?_,
-      by simpa [List.append_assoc] using r4, ?_, ?_, ?_⟩
+      by simpa [List.append_assoc] using r4, ?_, ?_, ?_, f4, (p2.trans (p3.weaken l2)).trans (pm.weaken (Nat.le_trans l2 l3)),
+      ?_, ?_⟩
     · simp only [deserNode, hres, e2, e3]
     · rw [mkNode_fst_nv]; exact Nat.le_trans l2 l3
     · intro v
@@ -673,13 +1089,6 @@ theorem rt_node (V : Nat → ValueS) (td : TData) :
       simp [liveOuts, allDefsN]
     · rw [mkNode_snd]
       simp only [TreeRelN]
-      have hLkeys : ∀ v ∈ stripTrailing V outs, v ∈ (A ++ B1).map (·.1) := by
-        intro v hv
-        rw [hkeys1]
-        by_cases ht : nameTruthy (V v).name = true
-        · exact .inl ((hL v hv).2.1 ht)
-        · exact .inr ⟨hv, ht⟩
-      have hinA : ∀ v, some v ∈ ins → v ∈ A.map (·.1) := fun v hv => hvis v (hins v hv).1 (hins v hv).2
       refine ⟨?_, fun v hv => mem_keys_append (hinA v hv), ?_, ?_, ?_⟩
       · apply List.map_congr_left
         intro o ho
@@ -691,37 +1100,61 @@ theorem rt_node (V : Nat → ValueS) (td : TData) :
         rw [← List.append_assoc]
         exact mem_keys_append (hLkeys v hv)
       · rw [← List.append_assoc]; exact t3
+    · rw [← List.append_assoc]
+      have a1 := (io2'.step (B := B2) (fun v hv => hLkeys v (List.mem_filter.mp hv).1) r2 p3)
+      have hk3 : ∀ v, v ∈ allDefsGs V subs → v ∈ (A ++ B1 ++ B2).map (·.1) := fun v hv => by
+        rw [List.map_append, List.mem_append]; exact .inr ((k2 v).mpr hv)
+      intro v hv
+      simp only [liveOuts, allDefsN, List.mem_append] at hv
+      rcases hv with hv | hv
+      · rw [(pm.cell _ (r3.sig_lt (mem_keys_append (hLkeys v (List.mem_filter.mp hv).1)))).1]
+        exact a1 v hv
+      · rw [(pm.cell _ (r3.sig_lt (hk3 v hv))).1]
+        exact io3 v hv
+    · rw [← List.append_assoc]
+      have hk3 : ∀ kv ∈ allInitsGs subs, kv.2 ∈ (A ++ B1 ++ B2).map (·.1) := fun kv hkv => by
+        rw [List.map_append, List.mem_append]
+        exact .inr ((k2 kv.2).mpr (allInits_sub_allDefsGs V subs kv hkv))
+      have := co3.prim hk3 r3 pm
+      simpa [allInitsN] using this
 theorem rt_subs (V : Nat → ValueS) (td : TData) :
     ∀ (subs : List GraphT) (s : Store) (A : Assoc) (Ds : List (List Nat)) (gps : List GraphP) (ws : Writes),
-      serSubs V td subs = .ok (gps, ws) → SerGs V Ds.flatten subs → (allDefsGs V subs).Nodup →
+      serSubs V td subs = .ok (gps, ws) → SerGs V Ds.flatten subs → InfoGs V subs → (allDefsGs V subs).Nodup →
       (∀ v ∈ allDefsGs V subs, v ∉ A.map (·.1)) →
       (∀ v ∈ Ds.flatten, nameTruthy (V v).name = true → v ∈ A.map (·.1)) → NamesUnique V Ds.flatten →
-      RS V s A →
+      RS V s A → Fresh s →
       ∃ (s' : Store) (gts : List GraphT) (B : Assoc),
         deserSubs s (Ds.map (tableOf V A)) gps = .ok (s', gts) ∧ RS V s' (A ++ B) ∧ s.nv ≤ s'.nv ∧
-        (∀ v, v ∈ B.map (·.1) ↔ v ∈ allDefsGs V subs) ∧ TreeRelGs V (A ++ B) subs gts
-  | [], s, A, Ds, gps, ws, hser, _, _, _, _, _, hrs => by
+        (∀ v, v ∈ B.map (·.1) ↔ v ∈ allDefsGs V subs) ∧ TreeRelGs V (A ++ B) subs gts ∧
+        Fresh s' ∧ Prim s.nv s s' ∧ InfoOK V s' (A ++ B) (allDefsGs V subs) ∧
+        ConstOK V td s' (A ++ B) (allInitsGs subs)
+  | [], s, A, Ds, gps, ws, hser, _, _, _, _, _, _, hrs, hfr => by
     simp only [serSubs, Except.ok.injEq, Prod.mk.injEq] at hser
     obtain ⟨rfl, _⟩ := hser
     exact ⟨s, [], [], by simp [deserSubs], by simpa using hrs, Nat.le_refl _, by simp [allDefsGs],
-      by simp [TreeRelGs]⟩
-  | g :: rest, s, A, Ds, gps, ws, hser, hS, hnd, hnew, hvis, hu, hrs => by
+      by simp [TreeRelGs], hfr, Prim.refl _ _, by simp [InfoOK, allDefsGs], by simp [ConstOK, allInitsGs]⟩
+  | g :: rest, s, A, Ds, gps, ws, hser, hS, hI, hnd, hnew, hvis, hu, hrs, hfr => by
     obtain ⟨gp, ws1, gps', ws2, h1, h2, rfl⟩ := serSubs_inv hser
     simp only [SerGs] at hS
+    simp only [InfoGs] at hI
     simp only [allDefsGs] at hnd hnew
     rw [List.nodup_append] at hnd
-    obtain ⟨s1, g', B1, e1, r1, l1, k1, t1⟩ := rt_graph V td g s A Ds gp ws1 h1 hS.1 hnd.1
-      (fun v hv => hnew v (by simp [hv])) hvis hu hrs
+    obtain ⟨s1, g', B1, e1, r1, l1, k1, t1, f1, p1, io1, co1⟩ := rt_graph V td g s A Ds gp ws1 h1 hS.1 hI.1 hnd.1
+      (fun v hv => hnew v (by simp [hv])) hvis hu hrs hfr
     have hlev : Ds.map (tableOf V (A ++ B1)) = Ds.map (tableOf V A) := levels_extend V A B1 Ds hvis
-    obtain ⟨s2, gts, B2, e2, r2, l2, k2, t2⟩ := rt_subs V td rest s1 (A ++ B1) Ds gps' ws2 h2 hS.2 hnd.2.1
+    obtain ⟨s2, gts, B2, e2, r2, l2, k2, t2, f2, p2, io2, co2⟩ := rt_subs V td rest s1 (A ++ B1) Ds gps' ws2 h2 hS.2 hI.2
+      hnd.2.1
       (fun v hv hm => by
         rw [List.map_append, List.mem_append, k1] at hm
         rcases hm with h | h
         · exact hnew v (by simp [hv]) h
         · exact hnd.2.2 v h v hv rfl)
-      (fun v hv ht => mem_keys_append (hvis v hv ht)) hu r1
+      (fun v hv ht => mem_keys_append (hvis v hv ht)) hu r1 f1
     rw [hlev] at e2
-    refine ⟨s2, g' :: gts, B1 ++ B2, ?_, by simpa [List.append_assoc] using r2, Nat.le_trans l1 l2, ?_, ?_⟩
+    have hk1 : ∀ v, v ∈ allDefsG V g → v ∈ (A ++ B1).map (·.1) := fun v hv => by
+      rw [List.map_append, List.mem_append]; exact .inr ((k1 v).mpr hv)
+    refine ⟨s2, g' :: gts, B1 ++ B2, ?_, by simpa [List.append_assoc] using r2, Nat.le_trans l1 l2, ?_, ?_, f2,
+      p1.trans (p2.weaken l1), ?_, ?_⟩
     · simp only [deserSubs, e1, e2]
     · intro v
       rw [List.map_append, List.mem_append, k1, k2]
@@ -729,12 +1162,24 @@ theorem rt_subs (V : Nat → ValueS) (td : TData) :
     · simp only [TreeRelGs]
       rw [← List.append_assoc]
       exact ⟨TreeRelG.mono V (A ++ B1) B2 g g' t1, t2⟩
+    · rw [← List.append_assoc]
+      have io1' := io1.step (B := B2) hk1 r1 p2
+      intro v hv
+      simp only [allDefsGs, List.mem_append] at hv
+      rcases hv with hv | hv
+      · exact io1' v hv
+      · exact io2 v hv
+    · rw [← List.append_assoc]
+      have co1' := co1.step (B := B2) (fun kv hkv => hk1 kv.2 (allInits_sub_allDefsG V g kv hkv)) r1 p2
+      intro kv hkv
+      simp only [allInitsGs, List.mem_append] at hkv
+      rcases hkv with hkv | hkv
+      · exact co1' kv hkv
+      · exact co2 kv hkv
 end
 
-/-! ### a serializable graph can be serialized -/
 
-theorem ne_none_of_truthy {V : Nat → ValueS} {v : Nat} (h : nameTruthy (V v).name = true) : (V v).name ≠ none := by
-  rw [(name_some_of_truthy h).1]; simp
+/-! ### a serializable graph can be serialized -/
 
 mutual
 theorem serGraph_ok (V : Nat → ValueS) (td : TData) :
